@@ -32,8 +32,9 @@ Definition check (c : c05case) : verdict :=
   match c with
   | CWrite tol li dflt ch out =>
       let lay := layout_ix li in
-      let m := bms_write tbl lay dflt ch in
-      let wf := wf_wchart tol tbl lay dflt ch in
+      let sn := write_snaps tbl ch in                       (* shared by model and domain check *)
+      let m := bms_write_with tbl lay dflt ch sn in
+      let wf := wf_wchart_with tol tbl lay dflt ch sn in
       {| corr_ok := match m, out with
                     | None, None => true
                     | Some a, Some b => pairwise wline_eq a b
